@@ -448,7 +448,7 @@ func (f *BytecodeFunction) DisassembleInstruction(output io.Writer, offset int) 
 		bytecode.GET_LOCAL_1, bytecode.GET_LOCAL_2, bytecode.GET_LOCAL_3, bytecode.GET_LOCAL_4,
 		bytecode.SET_LOCAL_1, bytecode.SET_LOCAL_2, bytecode.SET_LOCAL_3, bytecode.SET_LOCAL_4,
 		bytecode.GET_UPVALUE_0, bytecode.GET_UPVALUE_1,
-		bytecode.SET_UPVALUE_0, bytecode.SET_UPVALUE_1, bytecode.SET_UPVALUE8, bytecode.SET_UPVALUE16,
+		bytecode.SET_UPVALUE_0, bytecode.SET_UPVALUE_1,
 		bytecode.POP_2, bytecode.POP_2_SKIP_ONE, bytecode.DUP_2,
 		bytecode.ADD_FLOAT, bytecode.SUBTRACT_FLOAT, bytecode.MULTIPLY_INT, bytecode.MULTIPLY_FLOAT,
 		bytecode.DIVIDE_INT, bytecode.DIVIDE_FLOAT, bytecode.EXPONENTIATE_INT, bytecode.NEGATE_INT, bytecode.NEGATE_FLOAT,
@@ -464,7 +464,7 @@ func (f *BytecodeFunction) DisassembleInstruction(output io.Writer, offset int) 
 	case bytecode.SET_LOCAL8, bytecode.GET_LOCAL8, bytecode.PREP_LOCALS8,
 		bytecode.NEW_ARRAY_TUPLE8, bytecode.NEW_ARRAY_LIST8, bytecode.NEW_STRING8,
 		bytecode.NEW_HASH_MAP8, bytecode.NEW_HASH_RECORD8, bytecode.NEW_SYMBOL8,
-		bytecode.NEW_HASH_SET8, bytecode.GET_UPVALUE8, bytecode.CLOSE_UPVALUES_TO8,
+		bytecode.NEW_HASH_SET8, bytecode.GET_UPVALUE8, bytecode.SET_UPVALUE8, bytecode.CLOSE_UPVALUES_TO8,
 		bytecode.INSTANTIATE8, bytecode.LOAD_UINT64_8,
 		bytecode.LOAD_UINT32_8, bytecode.LOAD_UINT16_8,
 		bytecode.LOAD_UINT8, bytecode.GET_IVAR8, bytecode.SET_IVAR8:
@@ -478,7 +478,7 @@ func (f *BytecodeFunction) DisassembleInstruction(output io.Writer, offset int) 
 		return f.disassembleChar(output, offset)
 	case bytecode.PREP_LOCALS16, bytecode.SET_LOCAL16, bytecode.GET_LOCAL16, bytecode.JUMP_UNLESS, bytecode.JUMP,
 		bytecode.JUMP_IF, bytecode.LOOP, bytecode.JUMP_IF_NIL, bytecode.JUMP_UNLESS_UNP, bytecode.FOR_IN_BUILTIN,
-		bytecode.FOR_IN, bytecode.GET_UPVALUE16, bytecode.CLOSE_UPVALUES_TO16,
+		bytecode.FOR_IN, bytecode.GET_UPVALUE16, bytecode.SET_UPVALUE16, bytecode.CLOSE_UPVALUES_TO16,
 		bytecode.INSTANTIATE16, bytecode.NEW_ARRAY_TUPLE16, bytecode.NEW_ARRAY_LIST16, bytecode.NEW_STRING16,
 		bytecode.NEW_HASH_MAP16, bytecode.NEW_HASH_RECORD16, bytecode.NEW_SYMBOL16,
 		bytecode.NEW_HASH_SET16, bytecode.JUMP_IF_IEQ, bytecode.JUMP_UNLESS_IEQ, bytecode.JUMP_UNLESS_IGE,
